@@ -88,6 +88,8 @@ class EnumInfo:
     def add(self, cls, members):
         self.enums[cls] = members
         for m in members:
+            if (cls, m) in self.codes:
+                continue            # idempotent: the source may be loaded several times in one process
             c = 2000000 + len(self.codes)
             self.codes[(cls, m)] = c
             self.rev[c] = (cls, m)
